@@ -17,7 +17,7 @@ from test.dataset.university_ontology_like_classes import Company, Person, CEO
 FIELD = {"sub": "sub_organization_of"}
 PROP = {"sub_organization_of": "sub"}
 UNIV_PROPS = {"Person": ["works_for", "member_of"], "Company": ["members", "sub"], "CEO": ["head_of"]}
-FAMILY_PROPS = ["related_to", "ancestor_of", "descendant_of", "knows", "known_by", "best_friend_of", "mentor_of"]
+FAMILY_PROPS = ["related_to", "ancestor_of", "descendant_of", "knows", "known_by", "best_friend_of", "mentor_of", "teaches", "taught_by"]
 SINGLE = {"works_for", "head_of"}
 
 # truth value of every model instance, switchable per case (a Symbol whose class defines __bool__ may be falsy while alive)
